@@ -60,6 +60,12 @@ pub fn park() {
   rt::park();
 }
 
+/// Shim extension (not in loom): `park` with a timeout, see `rt::park_timeout`. fibre reaches it through its
+/// `internal::sync` seam when built with `--cfg loom --cfg excsn_fibre_verif`.
+pub fn park_timeout(dur: std::time::Duration) {
+  rt::park_timeout(dur);
+}
+
 pub fn yield_now() {
   rt::yield_point();
 }
